@@ -207,11 +207,11 @@ prop('C11', COMMON +
      [(RO.c11, None), (RO.c11_sleep, None), (RO.c11_slot, None), (RO.c05_weak, None), (RO.rs_strength, None, ['PipeWaker']), (RL.aw, None), (RL.bl, None), (RO.c08, None, ['result-after-scheduler'])] + G_EXCL + G_ORDER + G_CORE)
 
 prop('C12', COMMON +
-     'Decided: consumer and back-pressure handshakes register/notify atomically (LW1, LW2 on notify and backpressure_release_notify); the output buffer is appended by the producer only and taken from the front by the consumer only (QD-pending); '
+     'Decided: consumer and back-pressure handshakes register/notify atomically (LW1, LW2 on notify and backpressure_release_notify) and a waker found in a slot is a live registration (LW5: notifiers remove the waker they wake, or registrations overwrite); the output buffer is appended by the producer only and taken from the front by the consumer only (QD-pending); '
      'exactly one push per processed item after its future completed, closed only at end of input, end reported only when empty and closed (ORD-C12); wakers are woken outside the lock, no guard lives across an await (BL, AW).',
-     ['consumer and back-pressure handshakes (LW1, LW2)', 'buffer discipline (QD-pending)', 'one output per input, in order, then end (ORD-C12)', 'wakes outside the lock, no guard across await (BL, AW)'],
+     ['consumer and back-pressure handshakes (LW1, LW2, LW5)', 'buffer discipline (QD-pending)', 'one output per input, in order, then end (ORD-C12)', 'wakes outside the lock, no guard across await (BL, AW)'],
      ['"for every buffer depth and interleaving" as executions', "depth 0 is outside the property's range"],
-     [(RW.lw, None, ['|notify#', '|notify<-', 'backpressure_release_notify', 'floor:notify:', 'floor:backpressure']), (RW.lw_register, None, ['PipeStream']), (RQ.qd_pending, None), (RO.c12, None), (RO.c11_sleep, None, ['pipe|']), (RO.c11_slot, None, ['pipe|']), (RO.c11, None, ['PipeWaker']), (RO.rs_strength, None, ['PipeWaker']), (RL.bl, None), (RL.aw, None), (RE.eo, None, ['^PipeStream', '^<PipeStream', '^PipeContext', '^<PipeContext'])] + G_CORE)
+     [(RW.lw, None, ['|notify#', '|notify<-', '^notify|registration', 'backpressure_release_notify', 'floor:notify:', 'floor:backpressure']), (RW.lw_register, None, ['PipeStream']), (RQ.qd_pending, None), (RO.c12, None), (RO.c11_sleep, None, ['pipe|']), (RO.c11_slot, None, ['pipe|']), (RO.c11, None, ['PipeWaker']), (RO.rs_strength, None, ['PipeWaker']), (RL.bl, None), (RL.aw, None), (RE.eo, None, ['^PipeStream', '^<PipeStream', '^PipeContext', '^<PipeContext'])] + G_CORE)
 
 prop('C13', COMMON +
      'Decided (ORD-C13): the resumer\'s sender and the future the suspending job waits on are the two ends of one channel, the resumer is handed out inside the job before waiting, the suspension is an ordinary future_desync job (so every token and ordering rule applies to it), '
